@@ -110,6 +110,11 @@ func (s *streamWS) RecvMsg(m interface{}) error {
 					return io.EOF // the client ended the stream
 				}
 			}
+			if err == io.EOF {
+				// The connection ended without a close frame, possibly
+				// inside a frame header: not a clean end of the stream.
+				return io.ErrUnexpectedEOF
+			}
 			return err
 		}
 
